@@ -733,7 +733,8 @@ def run_pattern(ctx, d14, d15, cfg, rng, replay_only=None):
         judge_objective(ctx, d14, d15, cfg, cls.__name__, model, lik, dist, x, y, out, None, added_vals, mll, replay,
                         replay_only=None if replay_only is None else replay_only.get("idx"),
                         extra_desc=f"{env_tag(cfg)} mode={mode} {what} evaluation#{j}",
-                        key_tag=f"/{mode}:{op if j else 'first'}", prior_recomputed=unwh and recomputed)
+                        key_tag=f"/{mode}:{op if (j or mode.endswith('3')) else 'first'}",
+                        prior_recomputed=unwh and recomputed)
         ctx.count(f"pattern:{mode}:{op}")
 
     with torch.no_grad():
@@ -742,7 +743,6 @@ def run_pattern(ctx, d14, d15, cfg, rng, replay_only=None):
             judge(0, mll(model(x), y), "before " + op, evalm)
             other, olik, _, _, _, _ = build(cfg, C.Rng(f"{C.seed()}:{cfg.get('rng_label')}:other"))
             sd = other.state_dict()
-            toggled = False
             if op == "load-model":
                 model.load_state_dict(sd)
             elif op == "load-strategy-child":
@@ -759,7 +759,6 @@ def run_pattern(ctx, d14, d15, cfg, rng, replay_only=None):
             if op.endswith("toggle"):
                 model.train(evalm)
                 model.train(not evalm)
-                toggled = True
             judge(1, mll(model(x), y), "after " + op, evalm)
         else:
             # (c): something else happens between `output = model(x)` and `mll(output, y)`
